@@ -1,5 +1,6 @@
 import DirectVerif.Gen.C15
 import DirectVerif.Model.Train
+import DirectVerif.Model.C15Engine
 /-!
 # Bridge C15 — what the translator read in `/repo` is what the model executes
 -/
@@ -66,5 +67,72 @@ theorem cosine_lr_eq (cosPi : Int → Int → Rat) (c : Sched.Cosine) (e : Int) 
     c.lr cosPi e = (warmup_factor_at c.method e c.warmupIters c.wf).map
       fun w => cosine_lr cosPi c.base w c.maxIters e := by
   simp only [Sched.Cosine.lr, warmup_factor_at_eq, cosine_lr]
+
+/-! ### the code around the core (`Model/C15Engine.lean`) -/
+
+/-- `if iteration in ("latest", -1)`: the aliases of "the latest checkpoint" (`-1` is the default of `Engine.predict`) -/
+theorem latest_aliases_eq : Gen.C15.latestAliases = C15E.latestAliases := by decide
+
+/-- the `if start_iter > 0 and initialization … elif initialization …` chain of `Engine.train` is **well formed**
+(`Props/C15Engine.lean`: `initialization_never_restores_training_state`, `resume_wins_over_initialization` hold for every
+well-formed chain) … -/
+theorem init_table_wf : C15E.wfInit Gen.C15.initTable = true := by decide
+
+/-- … and is the chain the model executes -/
+theorem init_table_eq : Gen.C15.initTable = C15E.initTable := by decide
+
+/-- `validation_loop` ends with `self.models_training_mode()` -/
+theorem val_tail_eq : Gen.C15.valTail = C15E.valTail := by decide
+
+/-- constructor unwraps `model` and every `*model` key, `save` is guarded by `save_to_disk`, `Engine.train` writes on the
+main process only, `Engine.predict` never writes, no directory listing in the load path, missing keys raise,
+`load_models_from_file` passes `only_models=True`, the trainer checkpoints model / optimizer / lr_scheduler / scaler -/
+theorem api_facts_wf : C15E.wfApi Gen.C15.apiFacts = true := by decide
+
+theorem guard_core (it c total : Nat) :
+    (decide ((it : Int) ≥ 5) && (Int.fmod (it : Int) (c : Int) == 0 || (it : Int) + 1 == (total : Int)))
+      = (decide (it ≥ 5) && (it % c == 0 || it + 1 == total)) := by
+  rw [Int.fmod_eq_emod_of_nonneg _ (Int.natCast_nonneg c)]
+  have e : (it : Int) % (c : Int) = ((it % c : Nat) : Int) := by simp
+  rw [e]
+  have h1 : (decide ((it : Int) ≥ 5)) = decide (it ≥ 5) := by
+    by_cases h : it ≥ 5
+    · simp [h]; omega
+    · simp [h]; omega
+  have h2 : ((((it % c : Nat) : Int)) == 0) = (it % c == 0) := by
+    cases it % c with
+    | zero => simp
+    | succ n => simp; omega
+  have h3 : (((it : Int) + 1) == (total : Int)) = (it + 1 == total) := by
+    rw [Bool.eq_iff_iff]
+    simp only [beq_iff_eq]
+    omega
+  rw [h1, h2, h3]
+
+/-- `validate_model_at_interval` -/
+theorem val_guard_eq (it vs total : Nat) : val_guard (it : Int) (vs : Int) (total : Int) = C15E.valGuard it vs total := by
+  simp only [val_guard, C15E.valGuard]
+  exact guard_core it vs total
+
+/-- `write_to_logs_at_interval` -/
+theorem log_guard_eq (it vs total : Nat) : log_guard (it : Int) (vs : Int) (total : Int) = C15E.logGuard it vs total := by
+  simp only [log_guard, C15E.logGuard]
+  have h20 : (Int.fmod (it : Int) 20 == 0) = (it % 20 == 0) := by
+    rw [Int.fmod_eq_emod_of_nonneg _ (by decide)]
+    have e : (it : Int) % 20 = ((it % 20 : Nat) : Int) := by simp
+    rw [e]
+    cases it % 20 with
+    | zero => simp
+    | succ n => simp; omega
+  have := guard_core it vs total
+  by_cases h5 : it ≥ 5
+  · have h5' : (it : Int) ≥ 5 := by omega
+    simp only [h5, h5', decide_true, Bool.true_and] at this ⊢
+    rw [h20, Bool.or_assoc, this, Bool.or_assoc]
+  · have h5' : ¬ (it : Int) ≥ 5 := by omega
+    simp [h5, h5']
+
+/-- `list(range(lr_step_size, num_iterations, lr_step_size))` in `direct/train.py` -/
+theorem solver_steps_eq (step total : Int) : solver_steps step total = C15E.solverSteps step total := rfl
 
 end DirectVerif.Bridge.C15
